@@ -17,6 +17,7 @@ PROPS = [f"C{i:02d}" for i in range(1, 21)]
 
 
 def overlay_of(patch):
+    patch = os.path.abspath(patch)
     files = sorted(set(re.findall(r"^\+\+\+ b/(.*)$", open(patch).read(), re.M)))
     tmp = tempfile.mkdtemp(prefix="ov-")
     try:
